@@ -210,6 +210,8 @@ type World struct {
 	Log     []Entry
 	Emitted int // Log[:Emitted] has happened on the server
 	P0, Q0  int
+	NoState bool          // the storage holds no common state at the first start …
+	Pre     int           // … which happens after Log[:Pre]
 	Seq     int           // the server's seq: number of the last container it has sent (delivered or not)
 	C0      map[int64]int // every channel of the scenario and the pts its part of the log starts from
 
@@ -221,9 +223,10 @@ type World struct {
 	// Created: channels without stored state that have been met, with the position they were met at
 	// (pts - pts_count of the first update routed to them): where their sequence starts for this client.
 	// Predicted by the harness from what it pushed / what the oracle forwarded, not read from the manager.
-	Created    map[int64]int
-	live       map[int64]bool // channels expected to have a worker (loaded at the start, or met)
-	KnownUsers map[int64]bool // users (Telegram ids) whose access hash the client knows
+	Created     map[int64]int
+	live        map[int64]bool // channels expected to have a worker (loaded at the start, or met)
+	subscribing map[int64]int  // new workers whose first difference will forward updates: answers served before
+	KnownUsers  map[int64]bool // users (Telegram ids) whose access hash the client knows
 	// Private: channels the account cannot access right now (their difference answers CHANNEL_PRIVATE).
 	// Removed: channels whose worker was told so since the last time they were met (it has stopped).
 	Private, Removed map[int64]bool
@@ -258,7 +261,7 @@ type World struct {
 func NewWorld(log []Entry, p0, q0 int, c0 map[int64]int) *World {
 	return &World{Log: log, P0: p0, Q0: q0, C0: c0, ChanTooLong: map[int64]bool{}, Extra: map[string][]int{}, FailNext: map[string]bool{}, inDiff: map[int64]bool{},
 		lastFinal: map[int64]bool{}, genuineTL: map[int64]int{},
-		Fresh: map[int64]bool{}, Late: map[int64]bool{}, Known: map[int64]bool{}, stored: map[int64]bool{}, Created: map[int64]int{}, Started: map[int64]bool{}, live: map[int64]bool{}, MetVia: map[int64]string{}, KnownUsers: map[int64]bool{}, Private: map[int64]bool{}, Removed: map[int64]bool{}}
+		Fresh: map[int64]bool{}, Late: map[int64]bool{}, Known: map[int64]bool{}, stored: map[int64]bool{}, Created: map[int64]int{}, Started: map[int64]bool{}, live: map[int64]bool{}, subscribing: map[int64]int{}, MetVia: map[int64]string{}, KnownUsers: map[int64]bool{}, Private: map[int64]bool{}, Removed: map[int64]bool{}}
 }
 
 // hashUnknown: nobody can tell the client the channel's access hash right now.
@@ -630,10 +633,22 @@ func (s *Store) SetDateSeq(_ context.Context, _ int64, date, seq int) error {
 
 func (s *Store) GetChannelPts(_ context.Context, _, channelID int64) (int, bool, error) {
 	// only handleChannel asks, right before it starts the channel's worker
-	s.env.W.mu.Lock()
-	s.env.W.Started[channelID] = true
-	delete(s.env.W.Removed, channelID) // a new worker: barriers go through it again
-	s.env.W.mu.Unlock()
+	w := s.env.W
+	w.mu.Lock()
+	w.Started[channelID] = true
+	delete(w.Removed, channelID) // a new worker: barriers go through it again
+	if seq := "c" + strconv.FormatInt(channelID, 10); len(w.Extra[seq]) > 0 {
+		// the new worker's subscribe difference will forward updates: a barrier must not be queued
+		// behind it before it has been answered (sendOut's drain would swallow the barrier)
+		n := 0
+		for _, sv := range w.Served {
+			if sv.Seq == seq {
+				n++
+			}
+		}
+		w.subscribing[channelID] = n
+	}
+	w.mu.Unlock()
 	s.mu.Lock()
 	defer s.mu.Unlock()
 	p, ok := s.chans[channelID]
